@@ -71,6 +71,13 @@ static void X_swap__long_ref_long_ref(long *a, long *b) { long t = *a; *a = *b; 
 static void X_swap__unsigned_long_ref_unsigned_long_ref(unsigned long *a, unsigned long *b) { unsigned long t = *a; *a = *b; *b = t; }
 static void X_swap__Elem_ptr_ref_Elem_ptr_ref(struct Elem **a, struct Elem **b) { struct Elem *t = *a; *a = *b; *b = t; }
 
+/* std::exchange for the shapes a move constructor would use */
+static unsigned long X_exchange__unsigned_long_ref_int_rref(unsigned long *o, int *n) { unsigned long t = *o; *o = (unsigned long)*n; return t; }
+static unsigned long X_exchange__unsigned_long_ref_unsigned_long_rref(unsigned long *o, unsigned long *n) { unsigned long t = *o; *o = *n; return t; }
+static long X_exchange__long_ref_int_rref(long *o, int *n) { long t = *o; *o = (long)*n; return t; }
+static long X_exchange__long_ref_long_rref(long *o, long *n) { long t = *o; *o = *n; return t; }
+static struct Elem *X_exchange__Elem_ptr_ref_void_ptr_rref(struct Elem **o, void **n) { struct Elem *t = *o; *o = (struct Elem *)*n; return t; }
+
 struct std_initializer_list_Elem { struct Elem *_M_array; size_t _M_len; };
 static size_t std_initializer_list_Elem__size(struct std_initializer_list_Elem *l) { return l->_M_len; }
 static struct Elem *std_initializer_list_Elem__begin(struct std_initializer_list_Elem *l) { return l->_M_array; }
